@@ -265,7 +265,9 @@ class World:
         fp = self.fs(p)
         os.makedirs(os.path.dirname(fp), exist_ok=True)
         if os.path.isdir(fp) and not os.path.islink(fp):
-            os.rmdir(fp)            # an empty directory left behind by an earlier deletion
+            # empty directories (possibly nested) left behind by earlier deletions; rmdir refuses anything else
+            for dp, _dn, _fn in os.walk(fp, topdown=False):
+                os.rmdir(dp)
         if k == "L":
             os.symlink(self.scheme.data(k, c), fp)
         else:
